@@ -5,8 +5,10 @@
 import PV.Model.Cov
 import PV.Props.C06Alg
 import PV.Proofs.C06bLemmas
+import PV.Proofs.C06cLemmas
 import PV.Proofs.RealScalar
 import Mathlib.Tactic.Ring
+import Mathlib.Tactic.NormNum
 import Mathlib.Tactic.FieldSimp
 
 namespace PV
@@ -94,6 +96,52 @@ theorem c06_model_element_single (o1 o2 : Obs ℝ) (hc : o1.covs = []) (h1 : o1.
 /-- Cauchy–Schwarz for the inner product the model uses (lists of any lengths) -/
 theorem c06_dot_cauchy_schwarz (a b : List ℝ) : |dot a b| ≤ Real.sqrt (dot a a * dot b b) :=
   C06m.abs_dot_le a b
+
+/-! ### the model on a common chain is a Gram matrix: positive semidefinite -/
+
+open Matrix in
+/-- **C06 (the assembled correlation matrix of the executable model is `D (X Xᵀ) D`).**  For every list of
+    observables that live on one common chain (same name, same configuration list, no covariance inputs, data not
+    constant), the matrix computed by the model of `covariance(obs, correlation=True)` - through
+    `_covariance_element` with its intersection by configuration number, the square-root normalisation and the
+    mirrored triangle - is the Gram matrix `X Xᵀ` of the fluctuations conjugated with `D = diag(1/‖δ_i‖)`. -/
+theorem c06_model_corr_is_gram (n : String) (idl : Idl) (hp : idl.toList.Pairwise (· < ·)) (obs : List (Obs ℝ)) (dv : List ℝ)
+    (hall : ∀ o ∈ obs, C06c.OnChain n idl o ∧ 0 < dot (C06c.fl o) (C06c.fl o)) :
+    C06c.modelM obs dv true
+      = diagonal (C06c.dinv obs) * (C06c.X obs idl.len * (C06c.X obs idl.len)ᵀ) * diagonal (C06c.dinv obs) :=
+  C06c.corr_is_gram n idl hp obs dv hall
+
+open Matrix in
+/-- **C06 (positive semidefiniteness, on the model).**  Under the same hypotheses the correlation matrix AND the
+    covariance matrix (rescaled by any error vector `dv`) of the executable model are symmetric and positive
+    semidefinite: `vᵀ C v ≥ 0` for every `v`.  (On observables with different configuration subsets the
+    intersections differ from pair to pair and the matrix need not be PSD - which is why pyerrors warns about
+    it; that regime is covered by the element bound above.) -/
+theorem c06_model_psd_common_chain (n : String) (idl : Idl) (hp : idl.toList.Pairwise (· < ·)) (obs : List (Obs ℝ)) (dv : List ℝ)
+    (hall : ∀ o ∈ obs, C06c.OnChain n idl o ∧ 0 < dot (C06c.fl o) (C06c.fl o)) :
+    ((C06c.modelM obs dv true).IsSymm ∧ ∀ v : Fin obs.length → ℝ, 0 ≤ v ⬝ᵥ (C06c.modelM obs dv true) *ᵥ v) ∧
+    ((C06c.modelM obs dv false).IsSymm ∧ ∀ v : Fin obs.length → ℝ, 0 ≤ v ⬝ᵥ (C06c.modelM obs dv false) *ᵥ v) :=
+  ⟨C06c.corr_psd n idl hp obs dv hall, C06c.cov_psd n idl hp obs dv hall⟩
+
+/-- the element on a common chain is the normalised inner product (the formula the two theorems rest on) -/
+theorem c06_model_element_common_chain (n : String) (idl : Idl) (hp : idl.toList.Pairwise (· < ·))
+    (o1 o2 : Obs ℝ) (h1 : C06c.OnChain n idl o1) (h2 : C06c.OnChain n idl o2) :
+    covElement o1 o2 = dot (C06c.fl o1) (C06c.fl o2)
+      / Real.sqrt (dot (C06c.fl o1) (C06c.fl o1) * dot (C06c.fl o2) (C06c.fl o2)) :=
+  C06c.covElement_onChain n idl hp o1 o2 h1 h2
+
+/-- non-vacuity: two observables on the chain `A|r1`, configurations 1, 3, 4 -/
+example : let o1 : Obs ℝ := { value := 1, reps := [{ name := "A|r1", idl := .list [1, 3, 4], deltas := [1, -2, 1], rvalue := 1 }], covs := [] }
+    let o2 : Obs ℝ := { value := 2, reps := [{ name := "A|r1", idl := .list [1, 3, 4], deltas := [2, 0, -2], rvalue := 2 }], covs := [] }
+    (∀ o ∈ [o1, o2], C06c.OnChain "A|r1" (.list [1, 3, 4]) o ∧ 0 < dot (C06c.fl o) (C06c.fl o))
+      ∧ (Idl.list [1, 3, 4]).toList.Pairwise (· < ·) := by
+  intro o1 o2
+  refine ⟨?_, by decide⟩
+  intro o ho
+  simp only [List.mem_cons, List.not_mem_nil, or_false] at ho
+  rcases ho with rfl | rfl
+  · exact ⟨⟨rfl, ⟨_, rfl, rfl, rfl, rfl⟩⟩, by simp [C06c.fl, o1, dot, ofNat_eq_lit, lit_eq] <;> norm_num⟩
+  · exact ⟨⟨rfl, ⟨_, rfl, rfl, rfl, rfl⟩⟩, by simp [C06c.fl, o2, dot, ofNat_eq_lit, lit_eq] <;> norm_num⟩
 
 end assembled
 
